@@ -61,6 +61,24 @@ def LimitsOrdered(m):
     return all(implies(n.endswith('_limits'), getattr(m, n)[0] <= getattr(m, n)[1]) for n in m.parameters)
 
 
+def FloatFollowsIndex(m, fname, iname):
+    """(bounded only) the float parameter shows - in the cache the clients see and through the attribute - the value belonging to the
+    current index"""
+    vdict = m.parameters[fname].valuedict
+    idx = m.parameters[iname].value
+    want = vdict[int(idx)]
+    return m.parameters[fname].value == want and getattr(m, fname) == want
+
+
+def ClosestRequested(m, fname, requested, asked_idx):
+    """a write of the float parameter asks the driver for the index of the closest allowed value"""
+    if requested is None:
+        return True
+    vdict = m.parameters[fname].valuedict
+    best = min(abs(v - requested) for v in vdict.values())
+    return len(asked_idx) == 1 and abs(vdict[int(asked_idx[0])] - requested) == best
+
+
 def StructAgrees(m, sname, members, touched):
     """(bounded only) after a whole-struct operation the cached struct and all cached members agree; after an operation on one
     member the struct entry of THAT member equals the member (the cross-update is never suppressed).  A member left different by an
@@ -78,6 +96,14 @@ CONTRACTS = [
     dict(key='StructParam.__set_name__', vc=False, file='frappy/extparams.py', func='StructParam.__set_name__', serves=['C18'],
          requires=[],
          ensures={'agree': 'StructAgrees(module, struct_name, member_attrs, touched)'},
+         raises={}),
+    # float parameter bound to an enumerated index (bounded stand-in only): after every operation of a history the float shows the value
+    # of the current index - also when the device answers a different index than the one requested
+    dict(key='FloatEnumParam.__set_name__', vc=False, file='frappy/extparams.py', func='FloatEnumParam.__set_name__', serves=['C18'],
+         requires=[],
+         ensures={'follows_index': 'FloatFollowsIndex(module, float_name, idx_name)',
+                  'closest': 'ClosestRequested(module, float_name, requested, asked_idx)',
+                  'reply': 'implies(requested is not None, result == module.parameters[float_name].valuedict[int(module.parameters[idx_name].value)])'},
          raises={}),
     # the whole change path on real module classes of several inheritance layouts (bounded stand-in only): a value outside
     # the current limits never reaches the driver, whichever class of the hierarchy declares the limits or a check hook
